@@ -543,6 +543,10 @@ def extract_unit(repo, unit_dir, out_path, variant=None):
     for rw in spec.get('rewrites', []):
         if rw.get('_count', 0) < rw.get('min', 0):
             raise LostAnchor('rewrite %s /%s/ matched %d times, needs >= %d' % (rw['rule'], rw['pattern'], rw.get('_count', 0), rw.get('min', 0)))
+    # alternative forms of one anchor: at least one rule of the group must have matched
+    grp = spec.get('require_one_of')
+    if grp and not any(rw.get('_count', 0) > 0 for rw in spec.get('rewrites', []) if any(rw['rule'].startswith(g) for g in grp)):
+        raise LostAnchor('none of the alternative rewrites %s matched' % grp)
     for k in contracts:
         if k not in used_fns:
             raise LostAnchor('contracts for fn %s but the unit does not extract it' % k)
